@@ -60,7 +60,8 @@ def gen_config(rng, tier):
 
 
 def gen_spec(rng, fmt):
-    sdate = rng.choice([2002154, 2003365, 2004059, 2004366, 1995001, 2011120, 1999365])
+    sdate = rng.choice([2002154, 2003365, 2004059, 2004366, 1995001, 2011120, 1999365,
+                        1970001, 1970200, 2069100])      # both ends of the two-digit-year window
     stime = rng.choice([0, 0, 1, 5, 12, 12, 20, 22, 23])
     spec = {'fmt': fmt, 'nx': rng.randrange(1, 6), 'ny': rng.randrange(1, 6),
             'nz': rng.randrange(1, 4), 'nt': rng.randrange(1, 6),
@@ -280,6 +281,17 @@ def gen_op(rng, st):
         return {'op': 'faulty_read', 'fail_at': rng.choice([1, 1, 2, 3, 4, 6, 9, 14, 25]),
                 'key': rng.choice(keys),
                 'errno': rng.choice(['EIO', 'EINTR', 'short'])}
+    if rng.random() < 0.06:
+        # the path is given other content (or the process changes directory and the
+        # path was relative) after the readers were constructed and before their
+        # first data access: a reader presents the file it opened
+        oth = dict(spec)
+        oth['nt'] = spec['nt'] + 1
+        oth['nx'] = spec['nx'] + 1          # other layout: other values at every offset
+        oth['stime'] = float((int(spec['stime']) + 3) % 24)
+        if 'species' in oth and len(oth['species']) > 1:
+            oth['species'] = oth['species'][1:] + oth['species'][:1]
+        return {'op': 'swap_under', 'spec': oth, 'how': rng.choice(['replace', 'chdir'])}
     if rng.random() < 0.08:
         # readers accept a path, a file object or a RecordFile; here a RecordFile
         # that was already used (advanced by some records) is handed to a new reader
@@ -797,6 +809,65 @@ def _apply(st, op):
             viol('readers-disagree', 'record reader built on a used RecordFile handle: time '
                  'flags %s, memmap %s' % (gt, times_of('m', m, fmt)),
                  what='tflag-shared-handle', family='r')
+    elif o == 'swap_under':
+        if deviating(fmt, spec, path) != 'none':
+            # only files both fresh readers present as written (the recorded
+            # limitations of the record readers are judged elsewhere)
+            return {'note': 'noop'}
+        orig = open(path, 'rb').read()
+        other = build(op['spec'])
+        times, arrays = _truth(fmt, spec)
+        tb = set(np.asarray(a, 'f4').tobytes() for a in arrays)
+        cwd = os.getcwd()
+        try:
+            if op['how'] == 'chdir':
+                os.chdir(os.path.dirname(path))
+                name = os.path.basename(path)
+                rd = {fam: open_reader(fam, fmt, name, spec) for fam in 'mr'}
+                els = w.path('elsewhere')
+                os.makedirs(els, exist_ok=True)
+                with open(os.path.join(els, name), 'wb') as fh:
+                    fh.write(other)
+                seams.stamp_file(os.path.join(els, name))
+                os.chdir(els)
+                w.fault('cwd_changed_after_open')
+            else:
+                rd = {fam: open_reader(fam, fmt, path, spec) for fam in 'mr'}
+                with open(path + '.tmp', 'wb') as fh:
+                    fh.write(other)
+                os.replace(path + '.tmp', path)
+                seams.stamp_file(path)
+                w.fault('path_replaced_after_open')
+            for fam in 'mr':
+                f2 = rd[fam]
+                try:
+                    def chk():
+                        bad = [k for k in data_keys(f2)
+                               if np.asarray(f2.variables[k][...], 'f4').tobytes() not in tb]
+                        return bad, times_of(fam, f2, fmt)
+                    (bad, tl), _ = _guard(chk)
+                except Timeout:
+                    viol('reader-does-not-terminate', 'first access after the path changed',
+                         family=fam)
+                except BaseException as e:
+                    obs[fam] = 'raised ' + type(e).__name__
+                    continue
+                if bad or tl != times:
+                    viol('readers-disagree',
+                         '%s reader opened before the path %s: its first access presents %s, '
+                         'not the file it opened' % (
+                             {'m': 'memmap', 'r': 'record'}[fam],
+                             'was given other content' if op['how'] == 'replace' else
+                             'resolved elsewhere (relative path, chdir)',
+                             ('other data in ' + ','.join(bad)) if bad else 'times %s' % (tl[:3],)),
+                         what='data-after-path-changed', family=fam)
+        finally:
+            os.chdir(cwd)
+            if op['how'] != 'chdir':
+                with open(path + '.tmp', 'wb') as fh:
+                    fh.write(orig)
+                os.replace(path + '.tmp', path)
+                seams.stamp_file(path)
     elif o == 'collect':
         seams.GC.collect(2)
         w.fault('gc_between')
